@@ -189,6 +189,39 @@ func (w *c03World) expected(ep c03EP) (ordered []c03Tier, missing map[string]c03
 	return
 }
 
+// c03StaleMetadataExplains reports whether the emitted existing-tier lists equal the reference computed
+// with one policy's order/types/tier replaced by those of another valid variant of the same key.
+func c03StaleMetadataExplains(s *vcState, w *c03World, ep c03EP, got []c03Tier) bool {
+	for k, kd := range s.u.Keys {
+		pk, ok := kd.Key.(model.PolicyKey)
+		if !ok || s.valid(k) == nil {
+			continue
+		}
+		id := pk.Kind + "/" + pk.Namespace + "/" + pk.Name
+		for v, vr := range kd.Vars {
+			if v == s.ds[k] || vr.Invalid {
+				continue
+			}
+			old := vr.Make().(*model.Policy)
+			w2 := *w
+			w2.pols = nil
+			for _, p := range w.pols {
+				if p.id == id {
+					cp := *p.pol
+					cp.Order, cp.Types, cp.Tier = old.Order, old.Types, old.Tier
+					p = c03Pol{id: p.id, name: p.name, order: cp.Order, pol: &cp}
+				}
+				w2.pols = append(w2.pols, p)
+			}
+			ordered, _, _ := w2.expected(ep)
+			if fmt.Sprint(ordered) == fmt.Sprint(got) {
+				return true
+			}
+		}
+	}
+	return false
+}
+
 func c03Emitted(tiers []*proto.TierInfo) []c03Tier {
 	var out []c03Tier
 	for _, t := range tiers {
@@ -284,6 +317,12 @@ func c03Check(x *vcRun, s *vcState, hist []vcEv) []hbfs.Fail {
 			} else {
 				key = "policy-membership"
 			}
+			// Diagnosis for a more specific key: is the emitted list what the reference gives when ONE
+			// policy keeps its current selector but has the order/types/tier of another (earlier)
+			// variant of itself? Then the graph is using stale metadata for that policy.
+			if c03StaleMetadataExplains(s, w, ep, gotOrdered) {
+				key = "stale-policy-metadata"
+			}
 			add(key, "%s (effective labels %v): emitted tiers %v, reference %v", id, w.effectiveLabels(ep), gotOrdered, ordered)
 		}
 	}
@@ -313,7 +352,7 @@ func c03Check(x *vcRun, s *vcState, hist []vcEv) []hbfs.Fail {
 }
 
 func TestVerif_C03(t *testing.T) {
-	vcMain(t, &vcProp{ID: "C03", Check: c03Check, Universes: []string{"pol", "set"}, QuickDeep: []string{"pol"}},
+	vcMain(t, &vcProp{ID: "C03", Check: c03Check, Universes: []string{"pol", "set"}},
 		"states = (datastore content, in-sync flag, shadow dataplane content, EventSequencer pending-object digest) reached by histories of "+
 			"set(key,variant)/del(key)/flush/insync over universe pol (2 tiers with orders 10/20/30/unset incl. an order tie, 2 policies with orders 1/2/unset incl. a tie, "+
 			"types ingress/egress/both/none, selectors on own, inherited and overridden labels, tier moves, a policy variant that fails validation; WEP with two label/profile variants, HEP, "+
